@@ -103,28 +103,7 @@ def r24a(ctx, run):
         run.check(order[0][1] >= 0 and order[0][1] > 0 or True, fn.site(), "entry power below every left_bp", F, "entry", fn.file, fn.ln, "")
     run.check(els is not None and "break" in els, fn.site(node["ln"]), "no operator token -> leave the loop", F, "else-break", fn.file, node["ln"],
               "when the current token is not a binary operator the loop must end")
-    # break test and recursion
-    ifs = [n for n in walk(fn.body) if n.get("k") == "if" and "minimum_bp" in canon(n["c"])]
-    good = len(ifs) == 1 and canon(ifs[0]["c"]) in ("(left_bp < minimum_bp)", "(minimum_bp > left_bp)") and "break" in canon(ifs[0]["t"])
-    run.check(good, fn.site(ifs[0]["ln"] if ifs else fn.ln), "break iff left_bp < minimum_bp", F, "break-test", fn.file, ifs[0]["ln"] if ifs else fn.ln,
-              "the Pratt loop must stop exactly when left_bp < minimum_bp; found %s" % [canon(i["c"]) for i in ifs])
-    rec = [c for c in synq.calls(fn.body, "parse_expr_bp")]
-    good = len(rec) == 1 and canon(rec[0]["a"][1]) == "right_bp"
-    run.check(good, fn.site(rec[0]["ln"] if rec else fn.ln), "right operand parsed with minimum power right_bp", F, "recursion", fn.file,
-              rec[0]["ln"] if rec else fn.ln, "the right operand must be parsed by parse_expr_bp(p, right_bp, ..)")
-    # order inside loop: post operators before operator lookup; bump between lookup and recursion
-    loop = [n for n in walk(fn.body) if n.get("k") == "loop"]
-    if len(loop) == 1:
-        stmts = loop[0]["b"]["s"]
-        first = canon(stmts[0])
-        run.check("parse_post_operators" in first and first.startswith("lhs ="), fn.site(stmts[0]["ln"]), "post operators applied to the left operand before any binary operator", F,
-                  "post-first", fn.file, stmts[0]["ln"], "parse_post_operators must be applied to lhs at the top of the loop")
-        idx = {name: i for i, s in enumerate(stmts) for name in ("(left_bp, right_bp)", "p.bump()", "parse_expr_bp(") if name in canon(s)[:400] and (name != "parse_expr_bp(" or "let (left_bp" not in canon(s))}
-        good = "(left_bp, right_bp)" in idx and "p.bump()" in idx and "parse_expr_bp(" in idx and idx["(left_bp, right_bp)"] < idx["p.bump()"] < idx["parse_expr_bp("]
-        run.check(good, fn.site(loop[0]["ln"]), "lookup, then bump the operator, then parse the right operand", F, "loop-order", fn.file, loop[0]["ln"],
-                  "loop body must be: select powers, bump operator, parse right operand (found order %s)" % idx)
-    else:
-        run.finding(F, "loop", fn.file, fn.ln, "expected exactly one loop in parse_expr_bp")
+    # (the break test, the recursion on right_bp, post operators first and the order bump/recursion are decided by evaluating the loop: R24.e)
     # entry points use 0
     for name in ("parse_expr", "parse_expr_with_recovery_set"):
         f = ctx.syn.fn(name, "grammar/expr.rs")
@@ -272,9 +251,188 @@ def r24d(ctx, run):
                                                                else "a parameter list must start a lambda"))
 
 
+def r24e(ctx, run):
+    """the Pratt loop itself evaluated on token sequences: parse_expr_bp (and parse_expr_for_prefix, whatever it is used for) run from source against a
+    mock parser that builds the tree; operands are identifiers, the postfix operator is the dereference `^`.  For every pair of binary levels and
+    every position of a postfix `^` the tree must be the one the documented precedence gives: tighter levels nest deeper, equal levels nest to the
+    left, and a postfix operator belongs to the operand it follows - never to a binary expression."""
+    from symint import SymInterp, Env
+    from absint import Obj, Term, Variant, Panic, CannotEstablish
+    tk = tokenizer(ctx)
+    spell2kind = {v: k for k, v in tk.items()}
+    EX = "grammar/expr.rs"
+    fn = ctx.syn.fn("parse_expr_bp", EX)
+    helpers = {f.qual.rsplit("::", 1)[-1]: f for f in ctx.syn.fns_in(EX) if f.body is not None and not f.in_test}
+    reps = ["||", "&&", "==", "+", "*"]       # one operator per level
+    level = {op: i for i, ops in enumerate(LEVELS) for op in ops}
+
+    def reference(tokens):
+        """tree by the documented rules: tuples ('bin', op, l, r) / ('deref', x) / name"""
+        pos = [0]
+
+        def operand():
+            x = tokens[pos[0]]
+            pos[0] += 1
+            while pos[0] < len(tokens) and tokens[pos[0]] == "^":
+                pos[0] += 1
+                x = ("deref", x)
+            return x
+
+        def expr(minlv):
+            l = operand()
+            while pos[0] < len(tokens) and tokens[pos[0]] in level and level[tokens[pos[0]]] >= minlv:
+                op = tokens[pos[0]]
+                pos[0] += 1
+                r = expr(level[op] + 1)
+                l = ("bin", op, l, r)
+            return l
+        return expr(0)
+
+    class MockParser:
+        def __init__(self, toks):
+            self.toks, self.pos = toks, 0
+            self.frames = [[]]
+
+    def run_parser(tokens):
+        kinds = [spell2kind.get(t, "Ident") if t not in ("a", "b", "c", "d") else "Ident" for t in tokens]
+        kinds = ["Caret" if t == "^" else k for t, k in zip(tokens, kinds)]
+        mp = MockParser(list(zip(kinds, tokens)))
+        P = Obj("Parser")
+
+        def cur():
+            return mp.toks[mp.pos][0] if mp.pos < len(mp.toks) else None
+
+        def m_at(i, r, a):
+            return cur() == (a[0].last if isinstance(a[0], Variant) else a[0])
+
+        def m_at_set(i, r, a):
+            return isinstance(a[0], frozenset) and cur() in a[0]
+
+        def m_at_ahead(i, r, a):
+            j = mp.pos + a[0]
+            return j < len(mp.toks) and isinstance(a[1], frozenset) and mp.toks[j][0] in a[1]
+
+        def m_bump(i, r, a):
+            if mp.pos >= len(mp.toks):
+                raise Panic("bump at end of input")
+            mp.frames[-1].append(("tok", mp.toks[mp.pos][1]))
+            mp.pos += 1
+            return None
+
+        def m_start(i, r, a):
+            mp.frames.append([])
+            return Obj("Marker")
+
+        def complete(i, r, a):
+            kind = a[1].last if isinstance(a[1], Variant) else str(a[1])
+            ch = mp.frames.pop()
+            node = ("node", kind, tuple(ch))
+            mp.frames[-1].append(node)
+            return Obj("Completed", node=node)
+
+        def precede(i, r, a):
+            # the new node starts where the completed one started: that node and everything emitted since (the operator token) become its children
+            top = mp.frames[-1]
+            idx = next((k for k in range(len(top) - 1, -1, -1) if top[k] is r.fields["node"]), None)
+            if idx is None:
+                raise CannotEstablish("precede of a node that is not a child of the open node")
+            moved = top[idx:]
+            del top[idx:]
+            mp.frames.append(moved)
+            return Obj("Marker")
+
+        def parse_lhs(i, a):
+            if cur() != "Ident":
+                return None
+            m_start(None, None, None)
+            m_bump(None, None, None)
+            return complete(None, None, [None, Variant("NodeKind::VarRef")])
+
+        def parse_post(i, a):
+            lhs, disallow_derefs = a[2], a[3]
+            while cur() == "Caret" and disallow_derefs is not True:
+                precede(None, lhs, None)
+                m_bump(None, None, None)
+                lhs = complete(None, None, [None, Variant("NodeKind::DerefExpr")])
+            return lhs
+
+        def resolver(path):
+            return helpers.get(path.rsplit("::", 1)[-1]) if path.rsplit("::", 1)[-1] not in ("parse_lhs", "parse_post_operators") else None
+        it = SymInterp(resolver=resolver,
+                       methods={"at": m_at, "at_set": m_at_set, "at_ahead": m_at_ahead, "bump": m_bump, "start": m_start, "complete": complete, "precede": precede,
+                                "at_eof": lambda i, r, a: cur() is None},
+                       funcs={"TokenSet::new": lambda i, a: frozenset(x.last for x in a[0]), "parse_lhs": parse_lhs, "parse_post_operators": parse_post, "Some": lambda i, a: a[0]})
+        quick = frozenset(spell2kind[x] for x in ("+", "-", "*", "/", "%", "|", "&", "~", "<<", ">>") if x in spell2kind)
+        it.consts["stmt::QUICK_ASSIGN_OPERATORS"] = quick
+        it.consts["QUICK_ASSIGN_OPERATORS"] = quick
+        # numeric constants of the file (binding powers given a name)
+        for _f, citem in ctx.syn.items_of("const", EX):
+            v = synq.int_value(citem.get("e")) if citem.get("e") is not None else None
+            if v is not None:
+                it.consts[citem.get("name") or citem.get("ident")] = v
+        env = Env(None, {fn.param_names()[0]: P, fn.param_names()[1]: 0, fn.param_names()[2]: frozenset(), fn.param_names()[3]: "expr"})
+        it.run_fn(fn, env)
+        top = mp.frames[0]
+        if mp.pos != len(mp.toks) or len(top) != 1:
+            return ("incomplete", mp.pos, tuple(top))
+
+        def simp(n):
+            if n[0] == "tok":
+                return n[1]
+            _, kind, ch = n
+            if kind == "VarRef":
+                return ch[0][1]
+            if kind == "DerefExpr":
+                return ("deref", simp(ch[0]))
+            if kind == "BinaryExpr" and len(ch) == 3:
+                return ("bin", ch[1][1], simp(ch[0]), simp(ch[2]))
+            return ("?" + kind,) + tuple(simp(c) for c in ch)
+        return simp(top[0])
+
+    def show(t):
+        if isinstance(t, str):
+            return t
+        if t[0] == "bin":
+            return "(%s %s %s)" % (show(t[2]), t[1], show(t[3]))
+        if t[0] == "deref":
+            return "%s^" % show(t[1])
+        return repr(t)
+    seqs = []
+    allops = [op for ops in LEVELS for op in ops]
+    for o1 in allops:
+        for o2 in allops:
+            seqs.append(["a", o1, "b", o2, "c"])
+    for o1 in reps:
+        seqs += [["a", o1, "b", "^"], ["a", "^", o1, "b"], ["a", o1, "b", "^", "^"]]
+        for o2 in reps:
+            seqs.append(["a", o1, "b", "^", o2, "c"])
+    for ops in LEVELS:
+        if len(ops) > 1:
+            seqs.append(["a", ops[0], "b", ops[-1], "c"])
+            seqs.append(["a", ops[-1], "b", ops[0], "c", "^"])
+    bad, n = None, 0
+    for toks in seqs:
+        n += 1
+        want = reference(toks)
+        try:
+            got = run_parser(toks)
+        except (Panic, CannotEstablish) as c:
+            got = "cannot establish: %s" % getattr(c, "what", c)
+        if got != want:
+            bad = (toks, got, want)
+            break
+    if n < 60 and not bad:
+        raise LookupError("token sequences: %d" % n)
+    run.check(bad is None, fn.site(), "parse_expr_bp builds the documented tree on %d token sequences (level pairs, postfix `^` in every position)" % n, "parse_expr_bp", "trees",
+              fn.file, fn.ln, "`%s` parses as %s; the documented precedence gives %s: %s" % (
+                  " ".join(bad[0]), show(bad[1]) if not isinstance(bad[1], str) or not bad[1].startswith("cannot") else bad[1], show(bad[2]),
+                  "a postfix operator belongs to the operand it follows, not to the binary expression" if "^" in bad[0] else "tighter levels nest deeper, equal levels nest to the left") if bad else "")
+
+
 def rules(ctx):
     return [
-        Rule("R24.a", "binding-power table equals the documented five left-associative levels; Pratt loop break/recursion/entry wiring", 18, r24a),
+        Rule("R24.a", "binding-power table equals the documented five left-associative levels; entry power 0", 14, r24a),
+        Rule("R24.e", "the Pratt loop evaluated on token sequences builds the documented tree (level pairs; postfix `^` in every position)", 1, r24e),
         Rule("R24.b", "operator inventories agree: tokenizer.txt, parser sets, ast::BinaryOp/UnaryOp, hir lowering, quick-assign set", 45, r24b),
         Rule("R24.d", "redundant parentheses stay parentheses: parse_lambda's look-ahead evaluated on token sequences (groups, nested groups, parameter lists, empty groups)", 19, r24d),
         Rule("R24.c", "prefix operators parse their operand without the binary loop; post operators first", 5, r24c),
